@@ -111,6 +111,10 @@ func c07Configs(tier string) []c07cfg {
 			cfgs = append(cfgs, c07cfg{seq: s, gap: 0, clients: sets[0], deep: true})
 		}
 	}
+	// the next command lands at the very instant at which the hold limit of a request held since the pause expires
+	for _, s := range []string{"pS", "pR", "pP"} {
+		cfgs = append(cfgs, c07cfg{seq: s, gap: c07Short, clients: []c07client{{"get", 0}, {"get", 0}}, deep: true})
+	}
 	// a pause / stop by another operator while a redeploy is still waiting for its targets
 	for _, s := range []string{"DPR", "DSR"} {
 		cfgs = append(cfgs, c07cfg{seq: s, gap: 100 * time.Millisecond, clients: []c07client{{"get", 600 * time.Millisecond}, {"get", 1500 * time.Millisecond}, {"health-get", 1500 * time.Millisecond}}, overlap: true, slowDeploy: true})
